@@ -116,6 +116,10 @@ type Ctx struct {
 	ReplayIndex int
 	Replaying   bool
 	Verbose     bool
+	// OnlyKinds / SkipKinds (comma separated) restrict the case kinds this
+	// process runs (the driver runs some kinds under a race-detector build).
+	OnlyKinds string
+	SkipKinds string
 
 	mu      sync.Mutex
 	log     *os.File
@@ -248,6 +252,12 @@ func (o *Obs) Inconclusive(reason string) {
 
 // Mine reports whether case (kind,index) is to be executed by this process.
 func (c *Ctx) Mine(kind string, index int) bool {
+	if c.OnlyKinds != "" && !kindIn(c.OnlyKinds, kind) {
+		return false
+	}
+	if c.SkipKinds != "" && kindIn(c.SkipKinds, kind) {
+		return false
+	}
 	if c.Replaying {
 		return kind == c.ReplayKind && index == c.ReplayIndex
 	}
@@ -393,4 +403,13 @@ func Watchdog(d time.Duration, fn func()) (ok bool, pan any, stack string) {
 	case <-time.After(d):
 		return false, nil, ""
 	}
+}
+
+func kindIn(list, kind string) bool {
+	for _, k := range strings.Split(list, ",") {
+		if k == kind {
+			return true
+		}
+	}
+	return false
 }
